@@ -18,16 +18,35 @@ where
     let l_indiv = read_samples_length(reader)?;
 
     let site_buf = record.fields_mut().site_buf_mut();
-    site_buf.resize(l_shared, 0);
-    reader.read_exact(site_buf)?;
+    read_buf_exact(reader, site_buf, l_shared)?;
 
     record.fields_mut().index()?;
 
     let samples_buf = record.fields_mut().samples_buf_mut();
-    samples_buf.resize(l_indiv, 0);
-    reader.read_exact(samples_buf)?;
+    read_buf_exact(reader, samples_buf, l_indiv)?;
 
     Ok(l_shared + l_indiv)
+}
+
+// Reads exactly `len` bytes into `buf`.
+//
+// `len` is read from the input, so `buf` grows as data arrives instead of being allocated upfront.
+pub(super) fn read_buf_exact<R>(reader: &mut R, buf: &mut Vec<u8>, len: usize) -> io::Result<()>
+where
+    R: Read,
+{
+    let limit = u64::try_from(len).map_err(|e| io::Error::new(io::ErrorKind::InvalidData, e))?;
+
+    buf.clear();
+
+    if reader.by_ref().take(limit).read_to_end(buf)? < len {
+        Err(io::Error::new(
+            io::ErrorKind::UnexpectedEof,
+            "failed to fill whole buffer",
+        ))
+    } else {
+        Ok(())
+    }
 }
 
 pub(super) fn read_site_length<R>(reader: &mut R) -> io::Result<usize>
@@ -146,6 +165,19 @@ pub(crate) mod tests {
         0x0a, 0x00, 0x64, // [10, 0, 100]
         0x64, 0x0a, 0x00, // [100, 10, 0]
     ];
+
+    #[test]
+    fn test_read_record_with_truncated_data() {
+        // l_shared = l_indiv = 2^32 - 1
+        let src = [0xff, 0xff, 0xff, 0xff, 0xff, 0xff, 0xff, 0xff, 0x00];
+        let mut reader = &src[..];
+        let mut record = Record::default();
+
+        assert!(matches!(
+            read_record(&mut reader, &mut record),
+            Err(e) if e.kind() == io::ErrorKind::UnexpectedEof
+        ));
+    }
 
     #[test]
     fn test_read_record() -> Result<(), Box<dyn std::error::Error>> {
